@@ -30,10 +30,15 @@ Section Spec.
     end.
 
   (* a method call site: class-level callback before method-level callback *)
-  Definition method_site (bo : ty) (m : method) (site0 : expr) : list event * expr :=
+  Definition method_site1 (bo : ty) (m : method) (site0 : expr) : list event * expr :=
     let '(e1, s1) := fire (class_cb ct bo) site0 in
     let '(e2, s2) := fire (m_cb m) s1 in
     (e1 ++ e2, s2).
+
+  (* the callbacks are those of the first class among the receiver's candidates that has the method - the class
+     the call is written against -, whichever class typed the call *)
+  Definition method_site_at (tv : ty) (a : string) (bo : ty) (m : method) (site0 : expr) : list event * expr :=
+    let '(cbo, cm) := callbacks_of W tv a (bo, m) in method_site1 cbo cm site0.
 
   Definition param_site (id : string) (site0 params : expr) : list event * expr :=
     let s := cb_spec (w_cb W) id in
@@ -52,12 +57,12 @@ Section Spec.
         let v' := out_of G v in
         match resolve Const is_lambda ct (candidates W (type_of G v)) a
                       (map (out_of G) args) (combine kwn (map (out_of G) kwv)) PNone with
-        | Ok (PStatic bo m a2 k2 _ _) => [method_site bo m (Call (Attr v' a) a2 (map fst k2) (map snd k2))]
-        | Ok (PStream bo m [] k2 _) => [method_site bo m (Call (Attr v' a) [] (map fst k2) (map snd k2))]
+        | Ok (PStatic bo m a2 k2 _ _) => [method_site_at (type_of G v) a bo m (Call (Attr v' a) a2 (map fst k2) (map snd k2))]
+        | Ok (PStream bo m [] k2 _) => [method_site_at (type_of G v) a bo m (Call (Attr v' a) [] (map fst k2) (map snd k2))]
         | Ok (PStream bo m [Lambda [p] b] k2 item) =>
             (* the lambda of a collection operator: its body first, under the element type *)
             rec ((p, item) :: G) b ++
-            [method_site bo m (Call (Attr v' a) [Lambda [p] (out_of ((p, item) :: G) b)] (map fst k2) (map snd k2))]
+            [method_site_at (type_of G v) a bo m (Call (Attr v' a) [Lambda [p] (out_of ((p, item) :: G) b)] (map fst k2) (map snd k2))]
         | _ => []
         end
     | Call (Subscript (Attr v a) s) args kwn kwv =>
@@ -67,6 +72,10 @@ Section Spec.
                  [param_site id (Call (Attr (out_of G v) a) (map (out_of G) args) kwn (map (out_of G) kwv)) (out_of G s)]
              | _ => []
              end
+    | Call (Lambda ps b) args kwn kwv =>
+        (* an immediately called lambda that binds its parameters positionally: the call sites of its body, the
+           parameters typed by the arguments *)
+        if called_ok ps args kwn kwv then rec (bind_params ps (map (type_of G) args) G) b else []
     | Call (Name x) args kwn kwv =>
         match find_func (w_ft W) x with
         | Some fn =>
@@ -101,12 +110,18 @@ Section Exact.
   Variable W : world.
   Let ct := w_ct W.
 
-  Lemma method_site_eq bo m site :
-    method_site W bo m site = (snd (method_callbacks W bo m site), fst (method_callbacks W bo m site)).
+  Lemma method_site1_eq bo m site :
+    method_site1 W bo m site = (snd (method_callbacks W bo m site), fst (method_callbacks W bo m site)).
   Proof.
-    unfold method_site, method_callbacks, fire, run_cb, md_events. fold ct.
+    unfold method_site1, method_callbacks, fire, run_cb, md_events. fold ct.
     destruct (class_cb ct bo); destruct (m_cb m); reflexivity.
   Qed.
+
+  Lemma method_site_eq tv a bo m site :
+    method_site_at W tv a bo m site =
+      (let '(cbo, cm) := callbacks_of W tv a (bo, m) in
+       (snd (method_callbacks W cbo cm site), fst (method_callbacks W cbo cm site))).
+  Proof. unfold method_site_at. destruct (callbacks_of W tv a (bo, m)) as [cbo cm]. apply method_site1_eq. Qed.
 
   Lemma fire_eq cb site : fire W cb site = (snd (run_cb W cb site), fst (run_cb W cb site)).
   Proof. destruct cb; reflexivity. Qed.
@@ -135,6 +150,16 @@ Section Exact.
     - rewrite fl_cons in H. apply bind_ok in H. destruct H as ([[[x' t] aux] ev1] & H1 & H).
       apply bind_ok in H. destruct H as ([[xs' ts'] evs] & H2 & H). inversion H; subst.
       cbn. rewrite (proj1 (out_of_fx _ _ _ _ _ _ H1)). f_equal. eauto.
+  Qed.
+
+  Lemma fl_types G es es' ts ev :
+    follow_list_with (follow_x W G) es = Ok (es', ts, ev) -> map (type_of W G) es = ts.
+  Proof.
+    revert es' ts ev. induction es as [|x xs IH]; intros es' ts ev H.
+    - cbn in H. inversion H; reflexivity.
+    - rewrite fl_cons in H. apply bind_ok in H. destruct H as ([[[x' t] aux] ev1] & H1 & H).
+      apply bind_ok in H. destruct H as ([[xs' ts'] evs] & H2 & H). inversion H; subst.
+      cbn. rewrite (proj2 (out_of_fx _ _ _ _ _ _ H1)). f_equal. eauto.
   Qed.
 
   Lemma fl_events n G es : Forall Q es -> (forall x, In x es -> size x <= n) -> forall es' ts ev,
@@ -213,8 +238,9 @@ Section Exact.
     - inversion Hex; subst best. inversion H; subst. reflexivity.
     - inversion Hex; subst best. cbn [mr_obj mr_node mr_ev mr_ty] in H.
       unfold node_of_plan in H.
-      destruct (method_callbacks W bo m _) as [site evs] eqn:Emc. inversion H; subst out t ev.
-      cbn [events_of flat_map]. rewrite method_site_eq, hk_node.
+      destruct (callbacks_of W tv a (bo, m)) as [cbo cm] eqn:Ecb.
+      destruct (method_callbacks W cbo cm _) as [site evs] eqn:Emc. inversion H; subst out t ev.
+      cbn [events_of flat_map]. rewrite method_site_eq, hk_node, Ecb.
       rewrite Emc. cbn. rewrite app_nil_r. reflexivity.
     - (* really calling the collection object's method *)
       assert (Hns : forall bo' m' a' k' it', PNone (A:=aarg) <> PStream bo' m' a' k' it') by discriminate.
@@ -227,8 +253,9 @@ Section Exact.
       destruct targs as [|item' targs]; [discriminate|].
       destruct a2 as [|x [|y r]]; [| |discriminate]; inversion Hst; subst item'.
       + inversion Hex; subst best. cbn [mr_obj mr_node mr_ev mr_ty] in H.
-        destruct (method_callbacks W (TCls c (item :: targs)) m _) as [site evs] eqn:Emc. inversion H; subst out t ev.
-        cbn [map events_of flat_map]. rewrite method_site_eq, hk_node.
+        destruct (callbacks_of W tv a (TCls c (item :: targs), m)) as [cbo cm] eqn:Ecb.
+        destruct (method_callbacks W cbo cm _) as [site evs] eqn:Emc. inversion H; subst out t ev.
+        cbn [map events_of flat_map]. rewrite method_site_eq, hk_node, Ecb.
         rewrite Emc. cbn. rewrite app_nil_r. reflexivity.
       + pose proof (Forall_inv Ha2) as Hx.
         assert (Hxk : exists p k, snd x = NLam p k /\
@@ -244,10 +271,11 @@ Section Exact.
         inversion Hb; subst best. cbn [mr_obj mr_node mr_ev mr_ty] in H.
         unfold nlam_inv in Hx. rewrite Hsx in Hx. destruct Hx as (b & Hfx & _ & Hbody).
         destruct (Hbody _ _ _ _ Hk) as [Hout Hevs].
-        destruct (method_callbacks W (TCls c (item :: targs)) m _) as [site evs] eqn:Emc. inversion H; subst out t ev.
+        destruct (callbacks_of W tv a (TCls c (item :: targs), m)) as [cbo cm] eqn:Ecb.
+        destruct (method_callbacks W cbo cm _) as [site evs] eqn:Emc. inversion H; subst out t ev.
         cbn [map]. change (aexpr x) with (fst x). rewrite Hfx.
         rewrite events_of_app. rewrite <- Hevs. f_equal.
-        cbn [events_of flat_map]. rewrite method_site_eq, hk_node.
+        cbn [events_of flat_map]. rewrite method_site_eq, hk_node, Ecb.
         rewrite Hout. rewrite Emc. cbn. rewrite app_nil_r. reflexivity.
   Qed.
 
@@ -292,12 +320,7 @@ Section Exact.
       assert (HQk : Forall Q kwv) by (eapply Forall_impl; [|exact H0]; intros x Hx; exact (proj1 Hx)).
       assert (Hf_fuel : size e <= n) by (eapply child_fuel; [exact Hn | cbn; auto]).
       rewrite sites_unfold by exact I. cbn [children flat_map]. rewrite flat_map_app, !events_of_app, <- ?app_assoc.
-      assert (Hcases : (exists v a, e = Attr v a) \/ (exists v a s, e = Subscript (Attr v a) s) \/ plain_callee e).
-      { destruct e; try (right; right; exact I); try (left; eauto; fail).
-        match goal with |- context [plain_callee (Subscript ?x ?y)] => destruct x end;
-          try (right; right; exact I).
-        right; left; eauto. }
-      destruct Hcases as [(v & a & ->)|[(v & a & s & ->)|Hplain]].
+      destruct (callee_cases e) as [(v & a & ->)|[(v & a & s & ->)|[(ps & b & ->)|Hplain]]].
       + rewrite fx_Call_method in HE.
         inv_bind HE x Hv. destruct x as [[[v' tv] auxv] ev0].
         inv_bind HE ta Hat. inv_bind HE x Hargs. destruct x as [[args' ts1] ev1].
@@ -344,6 +367,18 @@ Section Exact.
           destruct (literal_eval _); [|discriminate]. inversion Hp; subst.
           rewrite ?Eo, ?Eos, (fl_outs _ _ _ _ _ Hargs), (fl_outs _ _ _ _ _ Hkwv).
           cbn. rewrite app_nil_r. unfold md_events. reflexivity.
+      + (* an immediately called lambda *)
+        rewrite fx_Call_lambda in HE.
+        inv_bind HE x Hargs. destruct x as [[args' ts1] ev1].
+        inv_bind HE x Hkwv. destruct x as [[kwv' ts2] ev2].
+        pose proof (fl_events n G _ HQa Hargs_fuel _ _ _ Hargs) as Ha.
+        pose proof (fl_events n G _ HQk Hkwv_fuel _ _ _ Hkwv) as Hk.
+        assert (Hlam : events_of (sites_n W n G (Lambda ps b)) = []) by (destruct n; reflexivity).
+        rewrite Hlam. cbn [app own_sites]. rewrite (fl_types _ _ _ _ _ Hargs).
+        destruct (called_ok ps args kwn kwv).
+        * inv_bind HE x Hb. destruct x as [[[b' tb] auxb] ev3]. inversion HE; subst. do 2 f_equal.
+          destruct IHe as [_ Hsub]. cbn in Hsub. eapply Hsub; [|exact Hb]. cbn in Hf_fuel. lia.
+        * inversion HE; subst. cbn. rewrite app_nil_r. reflexivity.
       + rewrite fx_Call_plain in HE by exact Hplain.
         inv_bind HE x Hf. destruct x as [[[f' tf] auxf] ev0].
         inv_bind HE x Hargs. destruct x as [[args' ts1] ev1].
